@@ -44,7 +44,7 @@ func init() {
 		ID: "C17",
 		Rule: "rapid histories over distribution (minute) and mint (minute/hour/day) epochs with generated fee income (real transaction fees of any size), validator sets and powers, commission rates 0..100%, community tax 0..100%, several stakers per operator, epoch rewards 0..10^30; a fee book is recomputed from raw store entries after every step; " +
 			"non-trivial = a distribution-epoch end with fees > 0, at least 2 validators, an operator with commission strictly between 0 and 1 and booked staker rewards; distinct = hash of the (kind, outcome) sequence",
-		Gen:        GenOpts{Weights: w, HostilePct: 2, ExtremePct: 0, Anchor: true, Tempos: []int{20, 45, 90}, CapBits: 40, ClampBits: 50},
+		Gen:        GenOpts{Weights: w, HostilePct: 2, ExtremePct: 0, Anchor: true, Tempos: []int{20, 45, 90}, CapBits: 40, ClampBits: 40},
 		MinSteps:   25,
 		MaxSteps:   80,
 		Config:     feesConfig,
@@ -74,7 +74,7 @@ func init() {
 		"nextBlock": 28, "payFee": 12, "depositLST": 8, "delegate": 14, "undelegate": 5, "associate": 3, "optIn": 2, "optOut": 1,
 		"avsRegister": 7, "avsUpdate": 2, "avsOptIn": 10, "avsOptOut": 2, "avsDeregister": 1, "slash": 1,
 	}
-	base.Gen = GenOpts{Weights: w, HostilePct: 2, ExtremePct: 0, Anchor: true, Tempos: []int{20, 45, 90}, CapBits: 40, ClampBits: 50}
+	base.Gen = GenOpts{Weights: w, HostilePct: 2, ExtremePct: 0, Anchor: true, Tempos: []int{20, 45, 90}, CapBits: 40, ClampBits: 40}
 	base.Config = func(t *rapid.T) sim.Config {
 		cfg := feesConfig(t)
 		cfg.NumAVS = rapid.IntRange(2, 3).Draw(t, "nAVSF")
